@@ -19,7 +19,7 @@ branch they select, so that dominance queries see the same shape as for a hand-w
 Nothing is rewritten that changes which items are seen or in which order: take_while, skip, rev, step_by, chain, zip,
 peekable, ... stay calls, and the role extraction fails closed on them as before.
 """
-import copy, re
+import copy, re, re
 from .core import calls_in
 from .inline import inline_call, _assign
 
@@ -402,8 +402,15 @@ def _closure_is_interesting(F, cq, depth=0):
                     r.split('::')[-1] not in ('key', 'value', 'clone', 'source', 'target', 'new', 'fmt', 'eq', 'cmp', 'partial_cmp', 'hash', 'upgrade', 'downgrade'):
                 return True
     for bb in cb['blocks']:
+        if bb.get('cleanup'):
+            continue
         for s_ in bb['stmts']:
             if s_['k'] == 'assign' and s_['rv']['k'] == 'aggr' and s_['rv']['ak'].startswith('closure:') and _closure_is_interesting(F, s_['rv']['ak'][len('closure:'):], depth + 1):
+                return True
+            # it builds a crate value (`Edge(..)`) or writes captured state (`self.position += 1`): part of its host's data flow
+            if s_['k'] == 'assign' and s_['rv']['k'] == 'aggr' and re.match(r'^adt:(sync_)?(di|un)graph::', s_['rv']['ak']):
+                return True
+            if s_['k'] == 'assign' and s_['dst']['l'] == 1 and s_['dst']['p']:
                 return True
     return False
 
@@ -694,6 +701,91 @@ def thread_constants(F, nb, max_clones=120):
         if not progress:
             break
     return done
+
+
+def forward_result_var(F, b):
+    """single-exit style: `let mut found = None; .. found = Some(v); break 'outer; .. found` -- a local X whose only use is the
+    one `_0 = move X` of the body, which is never borrowed, projected or passed on, and is otherwise only assigned whole or
+    dropped, *is* the return place: it is renamed to _0 (exact: same stores, same final value).  Returns a new body or None."""
+    ret_assigns = []
+    for bi, bb in enumerate(b['blocks']):
+        if bb.get('cleanup'):
+            continue
+        for si, s_ in enumerate(bb['stmts']):
+            if s_['k'] == 'assign' and s_['dst']['l'] == 0:
+                ret_assigns.append((bi, si, s_))
+    if len(ret_assigns) != 1:
+        return None
+    rbi, rsi, rs = ret_assigns[0]
+    if rs['dst']['p'] or rs['rv']['k'] != 'use' or rs['rv']['ops'][0].get('k') != 'move' or rs['rv']['ops'][0]['pl']['p']:
+        return None
+    X = rs['rv']['ops'][0]['pl']['l']
+    if X <= b['argc'] or b['locals'][X] != b['locals'][0]:
+        return None
+    n_assign = 0
+
+    def uses(o):
+        return o.get('k') in ('move', 'copy') and o['pl']['l'] == X
+    for bi, bb in enumerate(b['blocks']):
+        for si, s_ in enumerate(bb['stmts']):
+            if s_['k'] in ('live', 'dead'):
+                continue
+            if s_['k'] != 'assign':
+                if json_mentions_local(s_, X):
+                    return None
+                continue
+            if (bi, si) == (rbi, rsi):
+                continue
+            if s_['dst']['l'] == X:
+                if s_['dst']['p']:
+                    return None
+                n_assign += 1
+            rv = s_['rv']
+            if 'pl' in rv and rv['pl']['l'] == X:
+                return None       # borrowed / discriminant read / copied out
+            if any(uses(o) for o in rv.get('ops', [])):
+                return None
+        t = bb['term']
+        if t['k'] == 'call':
+            if any(uses(o) for o in t['args']) or t['dst']['l'] == X:
+                return None
+        elif t['k'] == 'switch':
+            if uses(t['op']):
+                return None
+        elif t['k'] == 'drop':
+            pass
+        elif t['k'] == 'assert':
+            if json_mentions_local(t, X):
+                return None
+    if n_assign < 2:
+        return None       # an ordinary temporary, nothing to forward
+    nb = copy.deepcopy({k: v for k, v in b.items() if k != '_facts'})
+    for bi, bb in enumerate(nb['blocks']):
+        new_st = []
+        for si, s_ in enumerate(bb['stmts']):
+            if (bi, si) == (rbi, rsi):
+                continue
+            if s_['k'] in ('live', 'dead') and s_.get('l') == X:
+                continue
+            if s_['k'] == 'assign' and s_['dst']['l'] == X:
+                s_['dst']['l'] = 0
+            new_st.append(s_)
+        bb['stmts'] = new_st
+        t = bb['term']
+        if t['k'] == 'drop' and t['pl']['l'] == X and not t['pl']['p']:
+            bb['term'] = _goto(t['target'], t['sp'], t.get('exp', ''))
+    nb['forwarded_result'] = X
+    return nb
+
+
+def json_mentions_local(obj, X):
+    if isinstance(obj, dict):
+        if obj.get('l') == X and ('p' in obj or 'k' in obj):
+            return True
+        return any(json_mentions_local(v, X) for v in obj.values())
+    if isinstance(obj, list):
+        return any(json_mentions_local(v, X) for v in obj)
+    return False
 
 
 def normalize(F, b, max_rounds=12, only_interesting=False):
